@@ -336,7 +336,58 @@ def r4_realized_sources(ctx):
     ctx.ob("C13.R4", f"{FUTURES}::Future.deref::returns-wrapped-result", FUTURES, d.lineno, bool(rr), "" if rr else "deref no longer returns self._future.result(...)")
 
 
+RT = "src/basilisp/lang/runtime.py"
+
+
+@rule("C13.R5", floor=2)
+def r5_timeout_reaches_the_wait_primitive_as_a_float(ctx):
+    """Whether a timed deref returns the timeout value or the delivered value must depend on what
+    was delivered in time -- not on the *type* of the number of milliseconds.  Condition.wait_for
+    and Future.result take a float (or an int) of at most threading.TIMEOUT_MAX seconds; a Ratio
+    (int / int in Basilisp), a BigDecimal or 2^63-1 passed through `x / 1000` unchanged raise
+    TypeError / OverflowError, and only while the promise or future is still pending.  So in
+    runtime._deref_blocking the milliseconds flow into the seconds only through float(), and the
+    result is bounded by TIMEOUT_MAX."""
+    fn = ctx.fn(RT, "_deref_blocking")
+    params = [a.arg for a in fn.args.args]
+    if len(params) < 2:
+        raise AnalysisError("_deref_blocking changed signature")
+    ms = params[1]
+    call = next((c for c in P.calls(fn) if isinstance(c.func, ast.Attribute) and c.func.attr == "deref" and c.args), None)
+    if call is None or not isinstance(call.args[0], ast.Name):
+        raise AnalysisError("_deref_blocking no longer forwards a local to o.deref(...)")
+    var = call.args[0].id
+    vals = [a.value for a in ast.walk(fn) if isinstance(a, (ast.Assign, ast.AnnAssign)) and a.value is not None and P.un(a.targets[0] if isinstance(a, ast.Assign) else a.target) == var]
+    vals = [v for v in vals if not (isinstance(v, ast.Constant) and v.value is None)]
+    if not vals:
+        raise AnalysisError(f"_deref_blocking never computes `{var}`")
+
+    def raw_uses(e):
+        """occurrences of the milliseconds parameter that are not inside float(...)"""
+        if isinstance(e, ast.Call) and P.un(e.func) == "float":
+            return 0
+        if isinstance(e, ast.Name) and e.id == ms:
+            return 1
+        if isinstance(e, ast.Compare):
+            return 0  # a comparison yields a bool, the value does not flow on
+        if isinstance(e, ast.IfExp):
+            return raw_uses(e.body) + raw_uses(e.orelse)
+        return sum(raw_uses(c) for c in ast.iter_child_nodes(e))
+    bad = [v for v in vals if raw_uses(v)]
+    ctx.ob("C13.R5", f"{RT}::_deref_blocking::the milliseconds reach the seconds only through float()", RT, fn.lineno, not bad,
+           "" if not bad else f"`{P.un(bad[0])}` hands the caller's number on as it is: a Ratio or BigDecimal timeout raises TypeError in the wait primitive, but only if the promise or future is still pending",
+           witness="(deref (promise) 1001/2 :to) => TypeError: 'Fraction' object cannot be interpreted as an integer")
+    bounded = "TIMEOUT_MAX" in P.un(vals[-1])  # the assignment that reaches the call last
+    ctx.ob("C13.R5", f"{RT}::_deref_blocking::the seconds are bounded by threading.TIMEOUT_MAX", RT, fn.lineno, bounded,
+           "" if bounded else "a large timeout (Long/MAX_VALUE milliseconds, ##Inf) raises OverflowError: timestamp out of range in the wait primitive",
+           witness="(deref (future (time/sleep 0.2) :v) 9223372036854775807 :to) => OverflowError")
+
+
 SELFTEST = [
+    {"name": "timeout divided but not converted (the repaired defect)", "file": RT, "expect": "C13.R5",
+     "old": "        timeout_s = min(max(float(timeout_ms) / 1000, 0.0), threading.TIMEOUT_MAX)\n", "new": "        timeout_s = timeout_ms / 1000 if timeout_ms != 0 else 0\n"},
+    {"name": "twin: conversion spelled in two steps", "file": RT, "expect": None,
+     "old": "        timeout_s = min(max(float(timeout_ms) / 1000, 0.0), threading.TIMEOUT_MAX)\n", "new": "        timeout_s = float(timeout_ms) / 1000.0\n        timeout_s = min(max(timeout_s, 0.0), threading.TIMEOUT_MAX)\n"},
     {"name": "delay lock removed (the repaired defect)", "file": DELAY, "expect": "C13.R1",
      "old": "        with self._lock:\n            return self._state.swap(self.__deref).value\n", "new": "        return self._state.swap(self.__deref).value\n"},
     {"name": "delay fast path calls thunk outside lock", "file": DELAY, "expect": "C13.R1",
